@@ -176,6 +176,7 @@ func (fc *FnCtx) allocRef(name string, t types.Type) Val {
 		fc.assertGlobal(fmt.Sprintf("(not (= %s %s))", o, r))
 	}
 	fc.allocs = append(fc.allocs, r)
+	fc.newIsNew(r)
 	return mkVal(t, []string{r})
 }
 
@@ -445,6 +446,7 @@ func (fc *FnCtx) unop(x *ssa.UnOp) {
 		if _, local := x.X.(*ssa.Alloc); !local {
 			fc.noAliasLocal(fc.vals[x])
 		}
+		fc.recordExisting(fc.vals[x])
 	case token.NOT:
 		fc.setVal(x, boolVal(not(fc.val(x.X).S())))
 	case token.SUB:
